@@ -130,6 +130,21 @@ def run(res):
                     " .db %s, 0\n", ".eseg\n .db %s\n", " rjmp %s\n", " lds r16, %s\n", " ldd r16, Y+%s\n", " out %s, r16\n")
     ] + [
         (" ldi r16, nowhere\n", ("ERR",), "undefined"),
+        # a label in front of a directive is the location of its own line, whatever the directive then does to the location
+        (" nop\nlbl: .org 0x10\n nop\n .dw lbl\n", ("OK", "0000" * 17 + "0100"), "label-on-directive-line"),
+        (" nop\nlbl: .dseg\nv: .byte 1\n.cseg\n .dw lbl, v\n", ("OK", "000001006000"), "label-on-directive-line"),
+        (" nop\nlbl: .eseg\n .db 1\n.cseg\n .dw lbl\n", ("OK", "00000100"), "label-on-directive-line"),
+        (" nop\nlbl: .cseg\n .dw lbl\n", ("OK", "00000100"), "label-on-directive-line"),
+        (" nop\nlbl: .equ a = 5\n .dw lbl, a\n", ("OK", "000001000500"), "label-on-directive-line"),
+        (" nop\nlbl: .set s = 5\n .dw lbl, s\n", ("OK", "000001000500"), "label-on-directive-line"),
+        (" nop\nlbl: .if 1\n nop\n.endif\n .dw lbl\n", ("OK", "000000000100"), "label-on-directive-line"),
+        (" nop\nlbl: .if 0\n nop\n.endif\n .dw lbl\n", ("OK", "00000100"), "label-on-directive-line"),
+        (" nop\nlbl: .message \"m\"\n .dw lbl\n", ("OK", "00000100"), "label-on-directive-line"),
+        (" nop\nlbl: .macro m\n nop\n.endm\n m\n .dw lbl\n", ("OK", "000000000100"), "label-on-directive-line"),
+        (" nop\nlbl: .def t = r16\n mov t, t\n .dw lbl\n", ("OK", "0000002f0100"), "label-on-directive-line"),
+        (" nop\n.dseg\nlbl: .org 0x100\nv: .byte 2\n.cseg\n .dw lbl, v\n", ("OK", "000060000001"), "label-on-directive-line"),
+        (".eseg\n .db 1\nlbl: .org 8\n .db 2\n.cseg\n .dw lbl\n", ("OK", "0100"), "label-on-directive-line"),
+        (" nop\nlbl: .org 0x10\nlbl2: .org 0x20\n .dw lbl, lbl2\n", ("OK", "0000" * 32 + "01001000"), "label-on-directive-line"),
         # an .equ is its definition: read at every use, where and when the use stands (pc, .set variables) - never a cached value
         (".set v = 1\n.equ e = v + 1\n .dw e\n.set v = 5\n .dw e\n", ("OK", "02000600"), "equ-over-set"),
         (".equ p = pc\n nop\n .dw p\n .dw p, p\n .dw p\n", ("OK", "00000100020002000400"), "equ-over-pc"),
